@@ -167,8 +167,76 @@ def corpus(repo, dump_bin, L, texts, out):
     json.dump(res, open(out, "w"))
 
 
+def freetext(repo, dump_bin, K, bmap, out, timeout_s):
+    """C18 free text: is there a field content of <= K bytes (each < 0x80) such that the comment line the converter emits
+    for it - '# (' + map(content) + ')' - followed by a line break and a valid transaction line is NOT parsed as exactly
+    that one transaction? `bmap[b]` is the byte the converter turns byte b into (measured on the real converter)."""
+    t0 = time.time()
+    tail = "2024-01-01 SPLIT A RATIO 2"
+    pre, post = "# (", ")\n"
+    L = len(pre) + K + len(post) + len(tail)
+    res = {"K": K, "L": L}
+    try:
+        rules = E.load_grammar(repo, dump_bin)
+        arms = E.load_arms(repo)
+        B = E.Enc(rules, arms, L, "b")
+        acc, kl, kc = E.top(B)
+        R = E.Enc(rules, arms, len(tail), "r")
+        accR, klR, kcR = E.top(R)
+    except E.Unsupported as e:
+        res["unsupported"] = str(e)
+        json.dump(res, open(out, "w"))
+        return
+    res["encode_s"] = round(time.time() - t0, 1)
+    k = BitVec("k", 8)  # content length
+    content = [BitVec(f"t{i}", 8) for i in range(K)]
+
+    def mapped(c):
+        e = c
+        for b, img in enumerate(bmap):
+            if img != b:
+                e = If(c == b, BitVecVal(img, 8), e)
+        return e
+
+    cs = B.cons + R.cons + E.fix_string(R, tail) + [ULE(k, K)] + [ULT(c, 128) for c in content]
+    cs.append(B.n == k + (len(pre) + len(post) + len(tail)))
+    for i in range(L):
+        if i < len(pre):
+            cs.append(B.c[i] == ord(pre[i]))
+            continue
+        j = i - len(pre)
+        # position j within content (j < k), else the fixed suffix post+tail shifted by k
+        e = True
+        suffix = post + tail
+        for off in range(len(suffix) - 1, -1, -1):
+            e = If(k + off == j, B.c[i] == ord(suffix[off]), e)
+        if j < K:
+            cs.append(If(UGT(k, j), B.c[i] == mapped(content[j]), e))
+        else:
+            cs.append(e)
+    s = SolverFor("QF_BV")
+    s.set("timeout", int(timeout_s * 1000))
+    s.add(cs)
+    s.add(Not(And(acc, accR, kl == klR, kc == kcR)))
+    t1 = time.time()
+    r = s.check()
+    res["verdict"] = str(r)
+    res["s"] = round(time.time() - t1, 1)
+    if r == sat:
+        m = s.model()
+        n = m.eval(k, True).as_long()
+        res["content"] = [m.eval(content[i], True).as_long() for i in range(n)]
+    # vacuity: the reference line itself is accepted
+    s2 = SolverFor("QF_BV")
+    s2.add(R.cons + E.fix_string(R, tail) + [accR])
+    res["reference_accepted"] = str(s2.check())
+    json.dump(res, open(out, "w"))
+
+
 if __name__ == "__main__":
     if sys.argv[1] == "worker":
         worker(sys.argv[2], sys.argv[3], int(sys.argv[4]), sys.argv[5], sys.argv[6], float(sys.argv[7]) if len(sys.argv) > 7 else 300, sys.argv[8] if len(sys.argv) > 8 else "0/1", sys.argv[9] if len(sys.argv) > 9 else "")
+    elif sys.argv[1] == "freetext":
+        freetext(sys.argv[2], sys.argv[3], int(sys.argv[4]), json.load(open(sys.argv[5])), sys.argv[6], float(sys.argv[7]) if len(sys.argv) > 7 else 600)
     elif sys.argv[1] == "corpus":
         corpus(sys.argv[2], sys.argv[3], int(sys.argv[4]), json.load(open(sys.argv[5])), sys.argv[6])
